@@ -5,6 +5,7 @@ import (
 	"errors"
 	"io"
 
+	"github.com/WICG/webpackage/go/internal/verifhook"
 	"github.com/WICG/webpackage/go/signedexchange/mice"
 )
 
@@ -45,6 +46,7 @@ func Parse(str string) (Version, bool) {
 }
 
 func (v Version) HeaderMagicBytes() []byte {
+	verifhook.Point("bundle.version.HeaderMagicBytes")
 	switch v {
 	case VersionB1:
 		return append(HeaderMagicBytesB1, VersionMagicBytesB1...)
